@@ -211,6 +211,18 @@ def global_set_names(prog):
 
 def compare(prog, src, host):
     d = {'kind': 'program', 'source': src, 'host': enc(host)}
+    # reference first (a case whose values explode is discarded before the implementation runs it)
+    rlog = []
+    rg = {k: copy.deepcopy(v) if isinstance(v, (list, dict)) else v for k, v in host.items()}
+    ref = interp.Ref(rg, rlog, fuel=50000)
+    try:
+        expected = ('ok', ref.run_program(prog))
+    except interp.Indeterminate as e:
+        return None, str(e)
+    except RecursionError:
+        return None, 'cyclic structure (an array pushed into itself through an alias)'
+    except interp.RefRuntimeError as e:
+        expected = ('runtime-error', e.kind)
     # implementation
     ilog = []
     ig = {k: copy.deepcopy(v) if isinstance(v, (list, dict)) else v for k, v in host.items()}     # the caller's globals object (own copies of containers)
@@ -223,18 +235,6 @@ def compare(prog, src, host):
         got = ('runtime-error', 'undefined-function' if 'Undefined function' in str(e) else str(e))
     except Exception as e:  # pylint: disable=broad-except
         got = ('host-exception', '%s: %s' % (type(e).__name__, e))
-    # reference
-    rlog = []
-    rg = {k: copy.deepcopy(v) if isinstance(v, (list, dict)) else v for k, v in host.items()}
-    ref = interp.Ref(rg, rlog, fuel=50000)
-    try:
-        expected = ('ok', ref.run_program(prog))
-    except interp.Indeterminate as e:
-        return None, str(e)
-    except RecursionError:
-        return None, 'cyclic structure (an array pushed into itself through an alias)'
-    except interp.RefRuntimeError as e:
-        expected = ('runtime-error', e.kind)
     if got[0] != expected[0] or (got[0] != 'ok' and got[1] != expected[1]):
         raise Violation('program ends with %r, documented scoping/calling rules give %r' % (got, expected), d, 'outcome')
     if ilog != rlog:
